@@ -8,6 +8,7 @@ import (
 	"os"
 
 	"verif/checks/c06"
+	"verif/checks/c08"
 	"verif/checks/c09"
 	"verif/checks/c11"
 	"verif/checks/c12"
@@ -22,6 +23,7 @@ type check struct {
 
 var checks = map[string]check{
 	"C06": {"model_checking", c06.Run, c06.Replay},
+	"C08": {"exploration", c08.Run, c08.Replay},
 	"C09": {"fault_enumeration", c09.Run, c09.Replay},
 	"C11": {"model_checking", c11.Run, c11.Replay},
 	"C12": {"model_checking", c12.Run, c12.Replay},
